@@ -102,12 +102,12 @@ func (p *service) processIncoming(msg message.Message) error {
 
 	case *message.PubackMessage:
 		// For PUBACK message, it means QoS 1, we should send to ack queue
-		p.sess.Pub1ack.Ack(msg)
+		p.ack(p.sess.Pub1ack, msg)
 		p.processAcked(p.sess.Pub1ack)
 
 	case *message.PubrecMessage:
 		// For PUBREC message, it means QoS 2, we should send to ack queue, and send back PUBREL
-		if err = p.sess.Pub2out.Ack(msg); err != nil {
+		if err = p.ack(p.sess.Pub2out, msg); err != nil {
 			break
 		}
 
@@ -117,7 +117,7 @@ func (p *service) processIncoming(msg message.Message) error {
 
 	case *message.PubrelMessage:
 		// For PUBREL message, it means QoS 2, we should send to ack queue, and send back PUBCOMP
-		if err = p.sess.Pub2in.Ack(msg); err != nil {
+		if err = p.ack(p.sess.Pub2in, msg); err != nil {
 			break
 		}
 
@@ -129,7 +129,7 @@ func (p *service) processIncoming(msg message.Message) error {
 
 	case *message.PubcompMessage:
 		// For PUBCOMP message, it means QoS 2, we should send to ack queue
-		if err = p.sess.Pub2out.Ack(msg); err != nil {
+		if err = p.ack(p.sess.Pub2out, msg); err != nil {
 			break
 		}
 
@@ -141,7 +141,7 @@ func (p *service) processIncoming(msg message.Message) error {
 
 	case *message.SubackMessage:
 		// For SUBACK message, we should send to ack queue
-		p.sess.Suback.Ack(msg)
+		p.ack(p.sess.Suback, msg)
 		p.processAcked(p.sess.Suback)
 
 	case *message.UnsubscribeMessage:
@@ -150,7 +150,7 @@ func (p *service) processIncoming(msg message.Message) error {
 
 	case *message.UnsubackMessage:
 		// For UNSUBACK message, we should send to ack queue
-		p.sess.Unsuback.Ack(msg)
+		p.ack(p.sess.Unsuback, msg)
 		p.processAcked(p.sess.Unsuback)
 
 	case *message.PingreqMessage:
@@ -159,7 +159,7 @@ func (p *service) processIncoming(msg message.Message) error {
 		_, err = p.writeMessage(resp)
 
 	case *message.PingrespMessage:
-		p.sess.Pingack.Ack(msg)
+		p.ack(p.sess.Pingack, msg)
 		p.processAcked(p.sess.Pingack)
 
 	case *message.DisconnectMessage:
@@ -176,6 +176,17 @@ func (p *service) processIncoming(msg message.Message) error {
 	}
 
 	return err
+}
+
+// ack marks the request that msg acknowledges in ackq. ackmu makes it wait for
+// a sender that has written its request but not yet registered it (see
+// service.ackmu). The lock is released before the completion callbacks run
+// (processAcked).
+func (p *service) ack(ackq *sessions.Ackqueue, msg message.Message) error {
+	p.ackmu.Lock()
+	defer p.ackmu.Unlock()
+
+	return ackq.Ack(msg)
 }
 
 func (p *service) processAcked(ackq *sessions.Ackqueue) {
